@@ -180,3 +180,755 @@ Section Steps2.
     vmcbn2. destruct b; reflexivity.
   Qed.
 End Steps2.
+
+(** * The symbol table of top-level code: one global context, nested scopes *)
+
+From NL.Proofs Require Import CompileCorrectB.
+
+Definition stab (k : nat) (outer : list (list text)) (cur : list text) : symtab :=
+  [mkContext SGlobal k (outer ++ [cur])].
+
+(* the live declarations in declaration order *)
+Definition flat (outer : list (list text)) (cur : list text) : list text := concat outer ++ cur.
+
+Lemma gtab_stab : forall k outer cur, gtab (stab k outer cur).
+Proof. intros. exists k, (outer ++ [cur]). reflexivity. Qed.
+
+Lemma rposition_from_shift : forall x l i acc,
+  rposition_from x l i acc =
+  match rposition_from x l 0%nat None with Some j => Some (i + j)%nat | None => acc end.
+Proof.
+  intros x l. induction l as [|n l IH]; intros i acc; cbn [rposition_from]; [reflexivity|].
+  rewrite (IH (S i)), (IH 1%nat). destruct (rposition_from x l 0 None) as [j|].
+  - f_equal. lia.
+  - destruct (text_eqb n x); [f_equal; lia|reflexivity].
+Qed.
+
+Lemma rposition_app : forall x l1 l2,
+  rposition x (l1 ++ l2) =
+  match rposition x l2 with Some i => Some (length l1 + i)%nat | None => rposition x l1 end.
+Proof.
+  intros x l1 l2. unfold rposition. rewrite rposition_from_app. cbn [Nat.add].
+  apply rposition_from_shift.
+Qed.
+
+Lemma total_len_concat : forall k scopes, total_len (mkContext SGlobal k scopes) = length (concat scopes).
+Proof.
+  intros k scopes. unfold total_len. cbn [c_syms].
+  assert (forall acc, fold_left (fun a s => (a + length s)%nat) scopes acc = (acc + length (concat scopes))%nat) as H.
+  { induction scopes as [|s r IH]; intros acc; cbn [fold_left concat length]; [lia|].
+    rewrite IH, app_length. lia. }
+  rewrite H. reflexivity.
+Qed.
+
+Lemma resolve_scopes_concat : forall x scopes,
+  resolve_scopes x (rev scopes) (length (concat scopes)) = rposition x (concat scopes).
+Proof.
+  intros x scopes. induction scopes as [|s r IH] using rev_ind.
+  - reflexivity.
+  - rewrite rev_unit, concat_app. cbn [concat resolve_scopes]. rewrite app_nil_r, app_length.
+    replace (length (concat r) + length s - length s)%nat with (length (concat r)) by lia.
+    rewrite rposition_app. destruct (rposition x s) as [i|]; [reflexivity|exact IH].
+Qed.
+
+Lemma resolve_stab : forall k outer cur x,
+  resolve (stab k outer cur) x = option_map (mkSymbol SGlobal) (rposition x (flat outer cur)).
+Proof.
+  intros k outer cur x. unfold resolve, stab, current_context, context_resolve.
+  cbn [last length Nat.ltb Nat.leb c_scope c_syms]. rewrite total_len_concat, resolve_scopes_concat.
+  unfold flat. rewrite concat_app. cbn [concat]. rewrite app_nil_r.
+  destruct (rposition x (concat outer ++ cur)); reflexivity.
+Qed.
+
+Lemma push_last_snoc : forall x outer cur, push_last x (outer ++ [cur]) = outer ++ [cur ++ [x]].
+Proof.
+  intros x outer cur. induction outer as [|s r IH]; [reflexivity|].
+  cbn [app push_last]. rewrite IH. destruct (r ++ [cur]) eqn:E; [destruct r; discriminate E|reflexivity].
+Qed.
+
+Lemma define_stab : forall k outer cur x,
+  define (stab k outer cur) x = (stab (S k) outer (cur ++ [x]), mkSymbol SGlobal (length (flat outer cur))).
+Proof.
+  intros k outer cur x. unfold define, stab, current_context, context_define.
+  cbn [last update_last c_scope c_max c_syms]. rewrite push_last_snoc, total_len_concat.
+  f_equal. f_equal. unfold flat. rewrite !concat_app. cbn [concat]. rewrite !app_nil_r, !app_length.
+  cbn [length]. lia.
+Qed.
+
+Lemma enter_stab : forall k outer cur, enter_scope (stab k outer cur) = stab k (outer ++ [cur]) [].
+Proof. reflexivity. Qed.
+
+Lemma leave_stab : forall k outer cur0 cur, leave_scope (stab k (outer ++ [cur0]) cur) = stab k outer cur0.
+Proof.
+  intros. unfold leave_scope, stab. cbn [update_last c_scope c_max c_syms]. rewrite removelast_last. reflexivity.
+Qed.
+
+Lemma flat_enter : forall outer cur, flat (outer ++ [cur]) [] = flat outer cur.
+Proof. intros. unfold flat. rewrite concat_app. cbn [concat]. rewrite !app_nil_r. reflexivity. Qed.
+
+Lemma flat_snoc : forall outer cur x, flat outer (cur ++ [x]) = flat outer cur ++ [x].
+Proof. intros. unfold flat. rewrite app_assoc. reflexivity. Qed.
+
+(** * The intermediate evaluator for F2 *)
+
+Inductive xres (A : Type) : Type :=
+| XOk (a : A) (m : mst)
+| XBrk (m : mst)                     (* stop: leave the innermost loop *)
+| XCnt (m : mst)                     (* volgende: next iteration of the innermost loop *)
+| XErr (k : errkind)
+| XFault (f : fault)
+| XFuel.
+Arguments XOk {A} a m.
+Arguments XBrk {A} m.
+Arguments XCnt {A} m.
+Arguments XErr {A} k.
+Arguments XFault {A} f.
+Arguments XFuel {A}.
+
+Definition xbind {A B} (x : xres A) (k : A -> mst -> xres B) : xres B :=
+  match x with
+  | XOk a m => k a m
+  | XBrk m => XBrk m
+  | XCnt m => XCnt m
+  | XErr e => XErr e
+  | XFault f => XFault f
+  | XFuel => XFuel
+  end.
+
+Definition xlift_h (m : mst) (r : outcome (val * heap)) : xres val :=
+  match r with
+  | Ok x => XOk (fst x) (with_new_m m x)
+  | Err k => XErr k
+  | Fault f => XFault f
+  | OutOfFuel => XFuel
+  end.
+Definition xlift_p (m : mst) (r : outcome val) : xres val :=
+  match r with
+  | Ok v => XOk v m
+  | Err k => XErr k
+  | Fault f => XFault f
+  | OutOfFuel => XFuel
+  end.
+
+Fixpoint decl_names (l : list stmt) : list text :=
+  match l with
+  | [] => []
+  | SLet x _ :: r => x :: decl_names r
+  | _ :: r => decl_names r
+  end.
+
+Section XEval.
+  Variable orc : oracle.
+
+  (* same fuel discipline as Sem.eval_expr / eval_while / exec_block *)
+  Fixpoint xeval (fuel : nat) (names : list text) (e : expr) (m : mst) {struct fuel} : xres val :=
+    match fuel with
+    | O => XFuel
+    | S f =>
+        match e with
+        | EInt z => XOk (VInt z) m
+        | EBool b => XOk (VBool b) m
+        | EIdent x =>
+            match rposition x names with
+            | Some i => XOk (nth i (m_gl m) VNull) m
+            | None => XErr EReferenceError
+            end
+        | EAssign l r =>
+            match l with
+            | EIdent x =>
+                match rposition x names with
+                | Some i => xbind (xeval f names r m) (fun v m1 => XOk v (set_global_m i v m1))
+                | None => XErr EReferenceError
+                end
+            | _ => XErr ETypeError
+            end
+        | EPrefix op r =>
+            xbind (xeval f names r m) (fun v m1 =>
+              match op with
+              | OpNegate | OpSubtract => xlift_h m1 (negate (m_heap m1) v)
+              | OpNot => xlift_p m1 (lognot v)
+              | _ => XErr ETypeError
+              end)
+        | EInfix l op r =>
+            xbind (xeval f names l m) (fun a m1 =>
+            xbind (xeval f names r m1) (fun b m2 =>
+              match Sem.method_of op with
+              | Some mth => xlift_h m2 (binop orc mth (m_heap m2) a b)
+              | None => XErr ETypeError
+              end))
+        | EIf c t alt =>
+            xbind (xeval f names c m) (fun b m1 =>
+              match b with
+              | VBool true => xstmts f names t VNull m1
+              | VBool false =>
+                  match alt with
+                  | Some bl => xstmts f names bl VNull m1
+                  | None => XOk VNull m1
+                  end
+              | _ => XErr ETypeError
+              end)
+        | EWhile c body => xwhile f names c body VNull m
+        | _ => XErr ETypeError
+        end
+    end
+
+  with xwhile (fuel : nat) (names : list text) (c : expr) (body : list stmt) (last : val) (m : mst)
+         {struct fuel} : xres val :=
+    match fuel with
+    | O => XFuel
+    | S f =>
+        xbind (xeval f names c m) (fun b m1 =>
+          match b with
+          | VBool true =>
+              match xstmts f names body VNull m1 with
+              | XOk v m2 => xwhile f names c body v m2
+              | XBrk m2 => XOk VNull m2
+              | XCnt m2 => xwhile f names c body VNull m2
+              | other => other
+              end
+          | VBool false => XOk last m1
+          | _ => XErr ETypeError
+          end)
+    end
+
+  (* the statements of a block; `names` is local to the call: declarations of the block are
+     forgotten when it is left.  `last` as in Sem.exec_block. *)
+  with xstmts (fuel : nat) (names : list text) (l : list stmt) (last : val) (m : mst)
+         {struct fuel} : xres val :=
+    match fuel with
+    | O => XFuel
+    | S f =>
+        match l with
+        | [] => XOk last m
+        | s :: r =>
+            match s with
+            | SLet x e =>
+                xbind (xeval f (names ++ [x]) e m) (fun v m1 =>
+                  xstmts f (names ++ [x]) r VNull (set_global_m (length names) v m1))
+            | SExpr e => xbind (xeval f names e m) (fun v m1 => xstmts f names r v m1)
+            | SBlock b' => xbind (xstmts f names b' VNull m) (fun v m1 => xstmts f names r v m1)
+            | SBreak => XBrk m
+            | SContinue => XCnt m
+            | SReturn _ => XErr ESyntaxError
+            end
+        end
+    end.
+End XEval.
+
+(** * Unfolding equations *)
+
+Lemma f2e_if : forall lp c t alt,
+  f2e lp (EIf c t alt) = f2e false c && f2b lp t && match alt with Some b => f2b lp b | None => true end.
+Proof. reflexivity. Qed.
+Lemma f2e_while : forall lp c b, f2e lp (EWhile c b) = f2e false c && f2b true b.
+Proof. reflexivity. Qed.
+Lemma f2s_block : forall lp b, f2s lp (SBlock b) = f2b lp b.
+Proof. reflexivity. Qed.
+Lemma f2b_cons : forall lp s r, f2b lp (s :: r) = f2s lp s && f2b lp r.
+Proof. reflexivity. Qed.
+
+Lemma stmt_pop_block : forall b, stmt_pop (SBlock b) = match b with [] => true | _ :: _ => ends_pop b end.
+Proof.
+  intros b. cbn [stmt_pop]. induction b as [|s r IH]; [reflexivity|].
+  destruct r as [|s' r']; [reflexivity|]. cbn [ends_pop]. exact IH.
+Qed.
+
+Section XEq.
+  Variable orc : oracle.
+  Lemma xe_int : forall f names z m, xeval orc (S f) names (EInt z) m = XOk (VInt z) m.
+  Proof. reflexivity. Qed.
+  Lemma xe_bool : forall f names b m, xeval orc (S f) names (EBool b) m = XOk (VBool b) m.
+  Proof. reflexivity. Qed.
+  Lemma xe_ident : forall f names x m,
+    xeval orc (S f) names (EIdent x) m =
+    match rposition x names with
+    | Some i => XOk (nth i (m_gl m) VNull) m
+    | None => XErr EReferenceError
+    end.
+  Proof. reflexivity. Qed.
+  Lemma xe_assign : forall f names x r m,
+    xeval orc (S f) names (EAssign (EIdent x) r) m =
+    match rposition x names with
+    | Some i => xbind (xeval orc f names r m) (fun v m1 => XOk v (set_global_m i v m1))
+    | None => XErr EReferenceError
+    end.
+  Proof. reflexivity. Qed.
+  Lemma xe_prefix : forall f names op r m,
+    xeval orc (S f) names (EPrefix op r) m =
+    xbind (xeval orc f names r m) (fun v m1 =>
+      match op with
+      | OpNegate | OpSubtract => xlift_h m1 (negate (m_heap m1) v)
+      | OpNot => xlift_p m1 (lognot v)
+      | _ => XErr ETypeError
+      end).
+  Proof. reflexivity. Qed.
+  Lemma xe_infix : forall f names l op r m,
+    xeval orc (S f) names (EInfix l op r) m =
+    xbind (xeval orc f names l m) (fun a m1 =>
+    xbind (xeval orc f names r m1) (fun b m2 =>
+      match Sem.method_of op with
+      | Some mth => xlift_h m2 (binop orc mth (m_heap m2) a b)
+      | None => XErr ETypeError
+      end)).
+  Proof. reflexivity. Qed.
+  Lemma xe_if : forall f names c t alt m,
+    xeval orc (S f) names (EIf c t alt) m =
+    xbind (xeval orc f names c m) (fun b m1 =>
+      match b with
+      | VBool true => xstmts orc f names t VNull m1
+      | VBool false =>
+          match alt with
+          | Some bl => xstmts orc f names bl VNull m1
+          | None => XOk VNull m1
+          end
+      | _ => XErr ETypeError
+      end).
+  Proof. reflexivity. Qed.
+  Lemma xe_while : forall f names c body m,
+    xeval orc (S f) names (EWhile c body) m = xwhile orc f names c body VNull m.
+  Proof. reflexivity. Qed.
+  Lemma xw_step : forall f names c body last m,
+    xwhile orc (S f) names c body last m =
+    xbind (xeval orc f names c m) (fun b m1 =>
+      match b with
+      | VBool true =>
+          match xstmts orc f names body VNull m1 with
+          | XOk v m2 => xwhile orc f names c body v m2
+          | XBrk m2 => XOk VNull m2
+          | XCnt m2 => xwhile orc f names c body VNull m2
+          | other => other
+          end
+      | VBool false => XOk last m1
+      | _ => XErr ETypeError
+      end).
+  Proof. reflexivity. Qed.
+  Lemma xs_nil : forall f names last m, xstmts orc (S f) names [] last m = XOk last m.
+  Proof. reflexivity. Qed.
+  Lemma xs_let : forall f names x e r last m,
+    xstmts orc (S f) names (SLet x e :: r) last m =
+    xbind (xeval orc f (names ++ [x]) e m) (fun v m1 =>
+      xstmts orc f (names ++ [x]) r VNull (set_global_m (length names) v m1)).
+  Proof. reflexivity. Qed.
+  Lemma xs_expr : forall f names e r last m,
+    xstmts orc (S f) names (SExpr e :: r) last m =
+    xbind (xeval orc f names e m) (fun v m1 => xstmts orc f names r v m1).
+  Proof. reflexivity. Qed.
+  Lemma xs_block : forall f names b r last m,
+    xstmts orc (S f) names (SBlock b :: r) last m =
+    xbind (xstmts orc f names b VNull m) (fun v m1 => xstmts orc f names r v m1).
+  Proof. reflexivity. Qed.
+  Lemma xs_break : forall f names r last m, xstmts orc (S f) names (SBreak :: r) last m = XBrk m.
+  Proof. reflexivity. Qed.
+  Lemma xs_continue : forall f names r last m, xstmts orc (S f) names (SContinue :: r) last m = XCnt m.
+  Proof. reflexivity. Qed.
+End XEq.
+
+(** * Facts about the evaluator alone *)
+
+Definition nosig {A} (r : xres A) : Prop :=
+  match r with XBrk _ | XCnt _ => False | _ => True end.
+
+Lemma nosig_xbind : forall A B (x : xres A) (k : A -> mst -> xres B),
+  nosig x -> (forall a m, nosig (k a m)) -> nosig (xbind x k).
+Proof. intros A B x k Hx Hk. destruct x; cbn [xbind nosig] in *; auto. Qed.
+
+Lemma nosig_xlift_h : forall m r, nosig (xlift_h m r).
+Proof. intros m r. destruct r; exact I. Qed.
+Lemma nosig_xlift_p : forall m r, nosig (xlift_p m r).
+Proof. intros m r. destruct r; exact I. Qed.
+
+(* where no stop / volgende of an enclosing loop may be written, none is reported *)
+Lemma xeval_nosig : forall orc fuel,
+  (forall e names m, f2e false e = true -> nosig (xeval orc fuel names e m)) /\
+  (forall c body last names m, f2e false c = true -> nosig (xwhile orc fuel names c body last m)) /\
+  (forall l names last m, f2b false l = true -> nosig (xstmts orc fuel names l last m)).
+Proof.
+  intros orc fuel. induction fuel as [|f [IHe [IHw IHs]]].
+  - repeat split; intros; exact I.
+  - split; [|split].
+    + intros e names m HF. destruct e; try discriminate HF; try exact I.
+      * (* EInfix *) rewrite xe_infix. cbn [f2e] in HF.
+        apply andb_prop in HF. destruct HF as [HF Hr]. apply andb_prop in HF. destruct HF as [_ Hl].
+        apply nosig_xbind; [apply IHe; exact Hl|]. intros a m1.
+        apply nosig_xbind; [apply IHe; exact Hr|]. intros b m2.
+        destruct (Sem.method_of o); [apply nosig_xlift_h|exact I].
+      * (* EPrefix *) rewrite xe_prefix. cbn [f2e] in HF. apply andb_prop in HF. destruct HF as [_ Hr].
+        apply nosig_xbind; [apply IHe; exact Hr|]. intros v m1.
+        destruct o; try exact I; try apply nosig_xlift_h; apply nosig_xlift_p.
+      * (* EIf *) rewrite xe_if. rewrite f2e_if in HF.
+        apply andb_prop in HF. destruct HF as [HF Ha]. apply andb_prop in HF. destruct HF as [Hc Ht].
+        apply nosig_xbind; [apply IHe; exact Hc|]. intros b m1.
+        destruct b as [|[|]| | | | |]; try exact I.
+        -- apply IHs; exact Ht.
+        -- destruct e0 as [bl|]; [apply IHs; exact Ha|exact I].
+      * (* EIdent *) rewrite xe_ident. destruct (rposition s names); exact I.
+      * (* EAssign *) cbn [f2e] in HF. destruct e1; try discriminate HF. rewrite xe_assign.
+        destruct (rposition s names); [|exact I].
+        apply nosig_xbind; [apply IHe; exact HF|]. intros; exact I.
+      * (* EWhile *) rewrite xe_while. rewrite f2e_while in HF. apply andb_prop in HF. destruct HF as [Hc _].
+        apply IHw; exact Hc.
+    + intros c body last names m Hc. rewrite xw_step.
+      apply nosig_xbind; [apply IHe; exact Hc|]. intros b m1.
+      destruct b as [|[|]| | | | |]; try exact I.
+      destruct (xstmts orc f names body VNull m1) eqn:E; try exact I; apply IHw; exact Hc.
+    + intros l names last m HF. destruct l as [|s r]; [exact I|].
+      rewrite f2b_cons in HF. apply andb_prop in HF. destruct HF as [Hs Hr].
+      destruct s as [x e|e|e|b| |]; try discriminate Hs.
+      * rewrite xs_let. cbn [f2s] in Hs. apply andb_prop in Hs. destruct Hs as [He _].
+        apply nosig_xbind; [apply IHe; exact He|]. intros; apply IHs; exact Hr.
+      * rewrite xs_expr. apply nosig_xbind; [apply IHe; exact Hs|]. intros; apply IHs; exact Hr.
+      * rewrite xs_block. rewrite f2s_block in Hs.
+        apply nosig_xbind; [apply IHs; exact Hs|]. intros; apply IHs; exact Hr.
+Qed.
+
+(* a block that does not end in a value-leaving statement has the value null *)
+Lemma xstmts_no_pop_null : forall orc fuel l names last m v m',
+  l <> [] -> ends_pop l = false -> xstmts orc fuel names l last m = XOk v m' -> v = VNull.
+Proof.
+  intros orc fuel. induction fuel as [|f IH]; intros l names last m v m' Hne Hp H; [discriminate H|].
+  destruct l as [|s r]; [contradiction|].
+  destruct r as [|s' r'].
+  - (* last statement *)
+    cbn [ends_pop] in Hp. destruct s as [x e|e|e|b| |]; try discriminate Hp.
+    + rewrite xs_let in H. destruct (xeval orc f (names ++ [x]) e m) as [a m1| | | | |]; try discriminate H.
+      cbn [xbind] in H. destruct f; [discriminate H|]. rewrite xs_nil in H. inversion H; reflexivity.
+    + cbn [xstmts] in H. destruct f; discriminate H.
+    + rewrite xs_block in H. rewrite stmt_pop_block in Hp. destruct b as [|sb rb]; [discriminate Hp|].
+      destruct (xstmts orc f names (sb :: rb) VNull m) as [a m1| | | | |] eqn:E; try discriminate H.
+      cbn [xbind] in H. destruct f; [discriminate H|]. rewrite xs_nil in H. inversion H; subst.
+      apply (IH (sb :: rb) names VNull m v m'); [discriminate|exact Hp|exact E].
+    + rewrite xs_break in H. discriminate H.
+    + rewrite xs_continue in H. discriminate H.
+  - assert (ends_pop (s' :: r') = false) as Hp' by exact Hp.
+    destruct s as [x e|e|e|b| |].
+    + rewrite xs_let in H. destruct (xeval orc f (names ++ [x]) e m) as [a m1| | | | |]; try discriminate H.
+      cbn [xbind] in H. eapply (IH (s' :: r')); [discriminate|exact Hp'|exact H].
+    + cbn [xstmts] in H. discriminate H.
+    + rewrite xs_expr in H. destruct (xeval orc f names e m) as [a m1| | | | |]; try discriminate H.
+      cbn [xbind] in H. eapply (IH (s' :: r')); [discriminate|exact Hp'|exact H].
+    + rewrite xs_block in H. destruct (xstmts orc f names b VNull m) as [a m1| | | | |]; try discriminate H.
+      cbn [xbind] in H. eapply (IH (s' :: r')); [discriminate|exact Hp'|exact H].
+    + rewrite xs_break in H. discriminate H.
+    + rewrite xs_continue in H. discriminate H.
+Qed.
+
+(** * Pending `stop` jumps *)
+
+(* positions of the recorded Jump opcodes: increasing, 3 bytes each, inside [lo, hi) *)
+Fixpoint brk_ok (lo : Z) (nb : list Z) (hi : Z) : Prop :=
+  match nb with
+  | [] => lo <= hi
+  | ip :: r => lo <= ip /\ brk_ok (ip + 3) r hi
+  end.
+
+Definition brk_holes (nb : list Z) : list Z := flat_map (fun ip => [ip + 1; ip + 2]) nb.
+
+Definition brk_target (prog : program) (nb : list Z) (lexit : Z) : Prop :=
+  forall ip, In ip nb ->
+    byte_at prog (ip + 1) = Some (lexit mod 256) /\ byte_at prog (ip + 2) = Some ((lexit / 256) mod 256).
+
+Lemma brk_ok_le : forall nb lo hi, brk_ok lo nb hi -> lo <= hi.
+Proof.
+  induction nb as [|ip r IH]; intros lo hi H; cbn [brk_ok] in H; [exact H|].
+  destruct H as [H1 H2]. specialize (IH _ _ H2). lia.
+Qed.
+
+Lemma brk_ok_widen : forall nb lo hi lo' hi', brk_ok lo nb hi -> lo' <= lo -> hi <= hi' -> brk_ok lo' nb hi'.
+Proof.
+  induction nb as [|ip r IH]; intros lo hi lo' hi' H Hl Hh; cbn [brk_ok] in *; [lia|].
+  destruct H as [H1 H2]. split; [lia|]. apply (IH (ip + 3) hi); [exact H2|lia|exact Hh].
+Qed.
+
+Lemma brk_ok_app : forall n1 n2 a b c, brk_ok a n1 b -> brk_ok b n2 c -> brk_ok a (n1 ++ n2) c.
+Proof.
+  induction n1 as [|ip r IH]; intros n2 a b c H1 H2; cbn [brk_ok app] in *.
+  - apply (brk_ok_widen n2 b c); [exact H2|exact H1|lia].
+  - destruct H1 as [H1 H1']. split; [exact H1|]. apply (IH n2 _ b c); assumption.
+Qed.
+
+Lemma brk_ok_in : forall nb lo hi ip, brk_ok lo nb hi -> In ip nb -> lo <= ip /\ ip + 3 <= hi.
+Proof.
+  induction nb as [|ip0 r IH]; intros lo hi ip H Hin; [destruct Hin|].
+  cbn [brk_ok] in H. destruct H as [H1 H2]. destruct Hin as [->|Hin].
+  - split; [exact H1|]. apply (brk_ok_le _ _ _ H2).
+  - destruct (IH _ _ _ H2 Hin). lia.
+Qed.
+
+Lemma in_brk_holes : forall nb p, In p (brk_holes nb) <-> exists ip, In ip nb /\ (p = ip + 1 \/ p = ip + 2).
+Proof.
+  intros nb p. unfold brk_holes. rewrite in_flat_map. split.
+  - intros [ip [H1 H2]]. exists ip. split; [exact H1|]. cbn [In] in H2. intuition.
+  - intros [ip [H1 H2]]. exists ip. split; [exact H1|]. cbn [In]. intuition.
+Qed.
+
+Lemma brk_holes_range : forall nb lo hi p, brk_ok lo nb hi -> In p (brk_holes nb) -> lo < p < hi.
+Proof.
+  intros nb lo hi p H Hin. apply in_brk_holes in Hin. destruct Hin as [ip [Hi Hp]].
+  destruct (brk_ok_in _ _ _ _ H Hi). lia.
+Qed.
+
+Lemma brk_holes_app : forall a b, brk_holes (a ++ b) = brk_holes a ++ brk_holes b.
+Proof. intros. unfold brk_holes. apply flat_map_app. Qed.
+
+Lemma brk_target_app : forall prog a b lexit, brk_target prog (a ++ b) lexit ->
+  brk_target prog a lexit /\ brk_target prog b lexit.
+Proof.
+  intros prog a b lexit H. split; intros ip Hin; apply H; apply in_or_app; [left|right]; exact Hin.
+Qed.
+
+(** * The stack of loop contexts *)
+
+Definition add_breaks (nb : list Z) (L : list loopctx) : list loopctx :=
+  match rev L with
+  | [] => []
+  | ctx :: rest => rev rest ++ [mkLoop (l_start ctx) (l_breaks ctx ++ nb)]
+  end.
+
+Definition cur_start (L : list loopctx) : Z :=
+  match rev L with ctx :: _ => l_start ctx | [] => 0 end.
+
+Lemma add_breaks_snoc : forall nb outer ctx,
+  add_breaks nb (outer ++ [ctx]) = outer ++ [mkLoop (l_start ctx) (l_breaks ctx ++ nb)].
+Proof. intros. unfold add_breaks. rewrite rev_unit, rev_involutive. reflexivity. Qed.
+
+Lemma add_breaks_nil : forall L, add_breaks [] L = L.
+Proof.
+  intros L. destruct L as [|c L] using rev_ind; [reflexivity|].
+  rewrite add_breaks_snoc, app_nil_r. destruct c; reflexivity.
+Qed.
+
+Lemma add_breaks_add : forall n1 n2 L, add_breaks n2 (add_breaks n1 L) = add_breaks (n1 ++ n2) L.
+Proof.
+  intros n1 n2 L. destruct L as [|c L _] using rev_ind; [reflexivity|].
+  rewrite !add_breaks_snoc. cbn [l_start l_breaks]. rewrite app_assoc. reflexivity.
+Qed.
+
+Lemma add_breaks_empty : forall nb L, L = [] -> add_breaks nb L = [].
+Proof. intros nb L ->. reflexivity. Qed.
+
+Lemma add_breaks_eq_nil : forall nb L, add_breaks nb L = [] -> L = [].
+Proof.
+  intros nb L H. destruct L as [|c L _] using rev_ind; [reflexivity|].
+  rewrite add_breaks_snoc in H. destruct L; discriminate H.
+Qed.
+
+Lemma cur_start_add : forall nb L, cur_start (add_breaks nb L) = cur_start L.
+Proof.
+  intros nb L. destruct L as [|c L _] using rev_ind; [reflexivity|].
+  rewrite add_breaks_snoc. unfold cur_start. rewrite !rev_unit. reflexivity.
+Qed.
+
+Lemma cur_start_snoc : forall L c, cur_start (L ++ [c]) = l_start c.
+Proof. intros. unfold cur_start. rewrite rev_unit. reflexivity. Qed.
+
+(** * What a compilation step does to the compiler state *)
+
+Record cfacts (st st' : cstate) (outer : list (list text)) (cur' : list text) (ce : list Z) (nb : list Z)
+  : Prop := mkCF {
+  cf_syms : exists k', c_symbols st' = stab k' outer cur';
+  cf_code : c_code st' = c_code st ++ ce;
+  cf_consts : exists kx, c_constants st' = c_constants st ++ kx /\ Forall is_kint kx;
+  cf_loops : c_loops st' = add_breaks nb (c_loops st);
+  cf_nbnil : c_loops st = [] -> nb = [];
+  cf_brk : brk_ok (code_len st) nb (code_len st')
+}.
+
+Lemma cfacts_len : forall st st' outer cur ce nb, cfacts st st' outer cur ce nb ->
+  code_len st' = code_len st + zlength ce.
+Proof. intros st st' outer cur ce nb H. apply code_len_app. exact (cf_code _ _ _ _ _ _ H). Qed.
+
+Lemma cfacts_trans : forall st st1 st2 outer cur1 cur2 ce1 ce2 nb1 nb2,
+  cfacts st st1 outer cur1 ce1 nb1 -> cfacts st1 st2 outer cur2 ce2 nb2 ->
+  cfacts st st2 outer cur2 (ce1 ++ ce2) (nb1 ++ nb2).
+Proof.
+  intros st st1 st2 outer cur1 cur2 ce1 ce2 nb1 nb2 [S1 C1 [kx1 [K1 F1]] L1 N1 B1] [S2 C2 [kx2 [K2 F2]] L2 N2 B2].
+  constructor.
+  - exact S2.
+  - rewrite C2, C1, app_assoc. reflexivity.
+  - exists (kx1 ++ kx2). split; [rewrite K2, K1, app_assoc; reflexivity|apply Forall_app; auto].
+  - rewrite L2, L1. apply add_breaks_add.
+  - intros H. rewrite (N1 H). rewrite N2; [reflexivity|]. rewrite L1, H. reflexivity.
+  - apply (brk_ok_app nb1 nb2 _ (code_len st1)); assumption.
+Qed.
+
+(* a step that only appends bytes *)
+Lemma cfacts_emit : forall st st' outer cur k ce,
+  c_symbols st = stab k outer cur -> c_symbols st' = c_symbols st -> c_constants st' = c_constants st ->
+  c_loops st' = c_loops st -> c_code st' = c_code st ++ ce -> cfacts st st' outer cur ce [].
+Proof.
+  intros st st' outer cur k ce Hs Hs' Hk Hl Hc. constructor.
+  - exists k. congruence.
+  - exact Hc.
+  - exists []. rewrite app_nil_r. split; [exact Hk|constructor].
+  - rewrite add_breaks_nil. exact Hl.
+  - reflexivity.
+  - cbn [brk_ok]. rewrite (code_len_app _ _ _ Hc). pose proof (zlength_nonneg _ ce). lia.
+Qed.
+
+Lemma consts_ok_ext : forall prog c c', (exists kx, c' = c ++ kx /\ Forall is_kint kx) ->
+  consts_ok prog c' -> consts_ok prog c.
+Proof. intros prog c c' [kx [-> _]] H. apply (consts_ok_app prog c kx H). Qed.
+
+(* the environment of a piece of code inside the final program *)
+Record env_ok (prog : program) (st st' : cstate) (ce : list Z) (nb : list Z) (lexit : Z) : Prop := mkEnv {
+  env_code : code_x prog (code_len st) ce (brk_holes nb);
+  env_consts : consts_ok prog (c_constants st');
+  env_brk : brk_target prog nb lexit
+}.
+
+(* the environment of the first of two consecutive pieces *)
+Lemma env_left : forall prog st st1 st2 outer cur1 cur2 ce1 ce2 nb1 nb2 lexit,
+  cfacts st st1 outer cur1 ce1 nb1 -> cfacts st1 st2 outer cur2 ce2 nb2 ->
+  env_ok prog st st2 (ce1 ++ ce2) (nb1 ++ nb2) lexit -> env_ok prog st st1 ce1 nb1 lexit.
+Proof.
+  intros prog st st1 st2 outer cur1 cur2 ce1 ce2 nb1 nb2 lexit F1 F2 [E1 E2 E3]. constructor.
+  - apply code_x_app in E1. destruct E1 as [E1 _].
+    apply (code_x_restrict prog _ ce1 _ _ E1). intros p Hp Hin.
+    rewrite brk_holes_app in Hin. apply in_app_or in Hin. destruct Hin as [Hin|Hin]; [exact Hin|].
+    pose proof (brk_holes_range _ _ _ _ (cf_brk _ _ _ _ _ _ F2) Hin) as R.
+    rewrite (cfacts_len _ _ _ _ _ _ F1) in R. lia.
+  - apply (consts_ok_ext prog _ _ (cf_consts _ _ _ _ _ _ F2)). exact E2.
+  - apply (proj1 (brk_target_app _ _ _ _ E3)).
+Qed.
+
+Lemma env_right : forall prog st st1 st2 outer cur1 cur2 ce1 ce2 nb1 nb2 lexit,
+  cfacts st st1 outer cur1 ce1 nb1 -> cfacts st1 st2 outer cur2 ce2 nb2 ->
+  env_ok prog st st2 (ce1 ++ ce2) (nb1 ++ nb2) lexit -> env_ok prog st1 st2 ce2 nb2 lexit.
+Proof.
+  intros prog st st1 st2 outer cur1 cur2 ce1 ce2 nb1 nb2 lexit F1 F2 [E1 E2 E3]. constructor.
+  - apply code_x_app in E1. destruct E1 as [_ E1]. rewrite <- (cfacts_len _ _ _ _ _ _ F1) in E1.
+    apply (code_x_restrict prog _ ce2 _ _ E1). intros p Hp Hin.
+    rewrite brk_holes_app in Hin. apply in_app_or in Hin. destruct Hin as [Hin|Hin]; [|exact Hin].
+    pose proof (brk_holes_range _ _ _ _ (cf_brk _ _ _ _ _ _ F1) Hin) as R. lia.
+  - exact E2.
+  - apply (proj2 (brk_target_app _ _ _ _ E3)).
+Qed.
+
+(** * Simulation statements *)
+
+Section Sim.
+  Variable orc : oracle.
+
+  Definition sim2 (prog : program) (s : vm) (ip' lstart lexit : Z) (r : xres val) : Prop :=
+    match r with
+    | XOk v m' => exists fin', reaches orc prog s (setx s (v :: v_stack s) (v_slen s + 1) ip' m' fin')
+    | XBrk m' => exists fin', reaches orc prog s (setx s (VNull :: v_stack s) (v_slen s + 1) lexit m' fin')
+    | XCnt m' => exists fin', reaches orc prog s (setx s (VNull :: v_stack s) (v_slen s + 1) lstart m' fin')
+    | XErr k => stops orc prog s (Err k) (v_out s)
+    | XFault f => stops orc prog s (Fault f) (v_out s)
+    | XFuel => True
+    end.
+
+  (* statement lists, canonical form: if the list ends in a value-leaving statement, the machine is
+     followed up to (not including) the trailing Pop, with the value on the stack *)
+  Definition sim_l (prog : program) (s : vm) (pop : bool) (ipend lstart lexit : Z) (r : xres val) : Prop :=
+    match r with
+    | XOk v m' =>
+        if pop then exists fin', reaches orc prog s (setx s (v :: v_stack s) (v_slen s + 1) (ipend - 1) m' fin')
+        else exists fin', reaches orc prog s (setx s (v_stack s) (v_slen s) ipend m' fin')
+    | XBrk m' => exists fin', reaches orc prog s (setx s (VNull :: v_stack s) (v_slen s + 1) lexit m' fin')
+    | XCnt m' => exists fin', reaches orc prog s (setx s (VNull :: v_stack s) (v_slen s + 1) lstart m' fin')
+    | XErr k => stops orc prog s (Err k) (v_out s)
+    | XFault f => stops orc prog s (Fault f) (v_out s)
+    | XFuel => True
+    end.
+
+  Definition esim (e : expr) : Prop :=
+    forall lp st st' k outer cur, f2e lp e = true -> c_symbols st = stab k outer cur ->
+    compile_expression e st = Ok st' ->
+    exists ce nb, cfacts st st' outer cur ce nb /\
+      forall prog lexit, env_ok prog st st' ce nb lexit -> 0 <= lexit < 65536 ->
+      0 <= cur_start (c_loops st) ->
+      forall fuel s, v_ip s = code_len st ->
+      sim2 prog s (code_len st') (cur_start (c_loops st)) lexit
+           (xeval orc fuel (flat outer cur) e (mst_of s)).
+
+  Definition lsim (l : list stmt) : Prop :=
+    forall lp st st' k outer cur, f2b lp l = true -> c_symbols st = stab k outer cur ->
+    compile_statements l st = Ok st' ->
+    exists ce nb, cfacts st st' outer (cur ++ decl_names l) ce nb /\
+      (l <> [] -> last_instruction_is OPop st' = ends_pop l) /\
+      (ends_pop l = true -> (exists ce', ce = ce' ++ [byte_of_opcode OPop]) /\
+                            brk_ok (code_len st) nb (code_len st' - 1)) /\
+      forall prog lexit, env_ok prog st st' ce nb lexit -> 0 <= lexit < 65536 ->
+      0 <= cur_start (c_loops st) ->
+      forall fuel s last, v_ip s = code_len st ->
+      sim_l prog s (ends_pop l) (code_len st') (cur_start (c_loops st)) lexit
+            (xstmts orc fuel (flat outer cur) l last (mst_of s)).
+
+  (* the step property of one statement in front of a list *)
+  Definition ssim (s0 : stmt) : Prop := forall r, lsim r -> lsim (s0 :: r).
+
+  (** ** Small helpers *)
+
+  Lemma emit_const_loops : forall k st st', emit_const k st = Ok st' -> c_loops st' = c_loops st.
+  Proof.
+    intros k st st' H. unfold emit_const in H. destruct (add_constant k st) as [st1 r] eqn:E.
+    apply add_constant_loops in E. apply bind_ok in H. destruct H as [idx [_ H]]. inversion H; subst.
+    cbn [emit_u16 emit_opcode c_loops]. exact E.
+  Qed.
+
+  Lemma reaches_stepx : forall prog s s', step orc prog s = Ok (Continue s') -> reaches orc prog s s'.
+  Proof. intros. apply reaches_step. assumption. Qed.
+
+  Lemma holes_free_nil : forall off n, holes_free off n [].
+  Proof. intros off n p _ []. Qed.
+
+  Lemma f2e_infix : forall lp l o r, f2e lp (EInfix l o r) = is_binop o && f2e false l && f2e false r.
+  Proof. reflexivity. Qed.
+  Lemma f2e_prefix : forall lp o r, f2e lp (EPrefix o r) = is_prefix_op o && f2e false r.
+  Proof. reflexivity. Qed.
+  Lemma f2e_assign : forall lp x r, f2e lp (EAssign (EIdent x) r) = f2e false r.
+  Proof. reflexivity. Qed.
+
+  (** ** Literals and variables *)
+
+  Lemma esim_int : forall z, esim (EInt z).
+  Proof.
+    intros z lp st st' k outer cur HF Hs Hc. rewrite ce_int in Hc.
+    pose proof (emit_const_loops _ _ _ Hc) as Hl.
+    destruct (emit_const_kint z st st' Hc) as [Hsy [idx [kx [Hcode [Hk [Hf [Hr Hn]]]]]]].
+    exists [byte_of_opcode OConst; idx mod 256; (idx / 256) mod 256], [].
+    assert (cfacts st st' outer cur [byte_of_opcode OConst; idx mod 256; (idx / 256) mod 256] []) as CF.
+    { constructor.
+      - exists k. congruence.
+      - exact Hcode.
+      - exists kx. auto.
+      - rewrite add_breaks_nil. exact Hl.
+      - reflexivity.
+      - cbn [brk_ok]. rewrite (code_len_app _ _ _ Hcode). rewrite zlength3. lia. }
+    split; [exact CF|].
+    intros prog lexit [E1 E2 _] _ _ fuel s Hip. destruct fuel as [|f]; [exact I|].
+    rewrite xe_int. cbn [sim2]. exists (v_final s). apply reaches_step.
+    rewrite <- Hip in E1. pose proof (code_x_at3 _ _ _ _ _ _ _ E1 (holes_free_nil _ _)) as Hat.
+    rewrite (step_const orc prog s idx z [] Hat Hr (E2 _ _ Hn)). rewrite setm_setx.
+    f_equal. f_equal. apply setx_eq; [reflexivity|]. rewrite (code_len_app _ _ _ Hcode), zlength3, Hip. reflexivity.
+  Qed.
+
+  Lemma esim_bool : forall b, esim (EBool b).
+  Proof.
+    intros b lp st st' k outer cur HF Hs Hc. rewrite ce_bool in Hc. inversion Hc; subst st'; clear Hc.
+    exists [byte_of_opcode (if b then OTrue else OFalse)], [].
+    split; [apply (cfacts_emit _ _ outer cur k); auto|].
+    intros prog lexit [E1 E2 _] _ _ fuel s Hip. destruct fuel as [|f]; [exact I|].
+    rewrite xe_bool. cbn [sim2]. exists (v_final s). apply reaches_step.
+    rewrite <- Hip in E1. pose proof (code_x_at1 _ _ _ _ _ E1 (fun x => x)) as Hat.
+    rewrite (step_bool orc prog s b [] Hat). rewrite setm_setx.
+    f_equal. f_equal. apply setx_eq; [reflexivity|]. rewrite code_len_emit_opcode, Hip. reflexivity.
+  Qed.
+
+  Lemma esim_ident : forall x, esim (EIdent x).
+  Proof.
+    intros x lp st st' k outer cur HF Hs Hc. rewrite ce_ident, Hs, resolve_stab in Hc.
+    destruct (rposition x (flat outer cur)) as [i|] eqn:Er; cbn [option_map] in Hc; [|discriminate Hc].
+    unfold scoped in Hc. cbn [s_scope] in Hc.
+    pose proof (emit_sym_loops _ _ _ _ Hc) as Hl.
+    destruct (emit_sym_spec _ _ _ _ Hc) as [Hsy [Hk [Hr Hcode]]]. cbn [s_index] in Hr, Hcode.
+    eexists; exists []. split; [apply (cfacts_emit _ _ outer cur k); eauto|].
+    intros prog lexit [E1 E2 _] _ _ fuel s Hip. destruct fuel as [|f]; [exact I|].
+    rewrite xe_ident, Er. cbn [sim2]. exists (v_final s). apply reaches_step.
+    rewrite <- Hip in E1. pose proof (code_x_at3 _ _ _ _ _ _ _ E1 (holes_free_nil _ _)) as Hat.
+    rewrite (step_get_global orc prog s _ [] Hat Hr). rewrite Nat2Z.id, setm_setx.
+    f_equal. f_equal. apply setx_eq; [reflexivity|]. rewrite (code_len_app _ _ _ Hcode), zlength3, Hip. reflexivity.
+  Qed.
+End Sim.
